@@ -73,7 +73,26 @@ def default_graph(envmap, us_net, us_sp, us_space, us_node, us_sys):
     vols = [1.0, 8.0, 0.125, 27.0][:len(envmap)]
     system = graph_system(envmap, vols, us_net, us_sp, us_space, us_node, us_sys)
     f = si_factor(SYS[us_node], UnitsDimensions(3, 0, 0))
-    return default_ok(system, envmap, [v * f for v in vols], us_sp)
+    if not default_ok(system, envmap, [v * f for v in vols], us_sp):
+        return False
+    # the same system built from DICTIONARIES (the way files are read): nodes / species without units of their own inherit the
+    # enclosing object's; the system's own dictionary without state and chemostats regenerates both
+    from strengths.rdsystem import rdsystem_to_dict, rdsystem_from_dict
+    d = rdsystem_to_dict(system)
+    d.pop("state", None)
+    d.pop("chemostats", None)
+    again = rdsystem_from_dict(d)
+    if not default_ok(again, envmap, [v * f for v in vols], us_sp):
+        return False
+    # and from hand-written dictionaries with BARE numbers: node volumes in the space's units, one declaration at the space level
+    fs = si_factor(SYS[us_space], UnitsDimensions(3, 0, 0))
+    d2 = rdsystem_to_dict(system)
+    d2.pop("state", None)
+    d2.pop("chemostats", None)
+    d2["space"] = {"type": "graph", "units": d["space"]["units"] if "units" in d["space"] else {"space": SYS[us_space]["space"], "time": SYS[us_space]["time"], "quantity": SYS[us_space]["quantity"]},
+                   "nodes": [{"volume": v, "environment": _E[e]} for v, e in zip(vols, envmap)], "edges": [{"nodes": [i, i + 1]} for i in range(len(vols) - 1)]}
+    third = rdsystem_from_dict(d2)
+    return default_ok(third, envmap, [v * fs for v in vols], us_sp)
 
 
 def index_formula(kind, s, x, y, z):
